@@ -60,13 +60,14 @@ static bool jeq(const JV* a, const JV* b)
 // ---------------------------------------------------------------- independent BigTIFF reader
 struct Entry { uint16_t tag, type; uint64_t count, value; uint64_t value_field_off; };
 struct Dir { uint64_t off; std::vector<Entry> e; uint64_t next; };
-static uint64_t rd(const std::vector<uint8_t>& b, uint64_t off, int n) { uint64_t v = 0; for (int i = 0; i < n; ++i) v |= (uint64_t)b[off + i] << (8 * i); return v; }
+struct View { const uint8_t* p; size_t n; size_t size() const { return n; } const uint8_t& operator[](size_t i) const { return p[i]; } };
+static uint64_t rd(const View& b, uint64_t off, int n) { uint64_t v = 0; for (int i = 0; i < n; ++i) v |= (uint64_t)b[off + i] << (8 * i); return v; }
 static const Entry* find(const Dir& d, uint16_t tag) { for (auto& e : d.e) if (e.tag == tag) return &e; return nullptr; }
 static uint64_t scalar(const Entry& e) { switch (e.type) { case 1: case 2: return e.value & 0xff; case 3: return e.value & 0xffff; case 4: return e.value & 0xffffffffu; default: return e.value; } }
 
-struct Expect { FrameSpec spec; std::vector<uint8_t> pixels; uint64_t hw, ts_hw, ts_rt; };
+struct Expect { FrameSpec spec; std::vector<uint8_t> pixels; uint64_t hw, ts_hw, ts_rt; size_t big_size = 0; std::vector<uint8_t> head, tail; /* large frames: only the edges are kept */ };
 
-static std::string check_tiff(const std::vector<uint8_t>& b, const std::vector<Expect>& frames, const std::string& user_meta, bool meta_in_first)
+static std::string check_tiff(const View& b, const std::vector<Expect>& frames, const std::string& user_meta, bool meta_in_first)
 {
     char m[400];
     if (b.size() < 16) { snprintf(m, sizeof m, "file-too-short|file has %zu bytes, a BigTIFF header needs 16", b.size()); return m; }
@@ -106,8 +107,12 @@ static std::string check_tiff(const std::vector<uint8_t>& b, const std::vector<E
         if (scalar(*sf) != want_sf) { snprintf(m, sizeof m, "wrong-sample-format|directory %zu says format %llu, sample type %d needs %llu", i, (unsigned long long)scalar(*sf), f.spec.type, (unsigned long long)want_sf); return m; }
         uint64_t soff = scalar(*so), slen = scalar(*sc);
         if (soff + slen > b.size() || soff + slen < soff) { snprintf(m, sizeof m, "offset-outside-file|strip of directory %zu [%llu,+%llu) leaves the file", i, (unsigned long long)soff, (unsigned long long)slen); return m; }
-        if (slen < f.pixels.size()) { snprintf(m, sizeof m, "strip-too-short|strip of directory %zu has %llu bytes, the image has %zu", i, (unsigned long long)slen, f.pixels.size()); return m; }
-        if (memcmp(&b[soff], f.pixels.data(), f.pixels.size())) { snprintf(m, sizeof m, "pixels-differ|strip of directory %zu does not return frame %zu's pixel bytes", i, i); return m; }
+        const size_t want_len = f.big_size ? f.big_size : f.pixels.size();
+        if (slen < want_len) { snprintf(m, sizeof m, "strip-too-short|strip of directory %zu has %llu bytes, the image has %zu", i, (unsigned long long)slen, want_len); return m; }
+        bool same;
+        if (f.big_size) same = !memcmp(&b[soff], f.head.data(), f.head.size()) && !memcmp(&b[soff + f.big_size - f.tail.size()], f.tail.data(), f.tail.size()); // sparse large-file scenario: edges only
+        else same = !memcmp(&b[soff], f.pixels.data(), f.pixels.size());
+        if (!same) { snprintf(m, sizeof m, "pixels-differ|strip of directory %zu does not return frame %zu's pixel bytes", i, i); return m; }
         ranges.push_back({ soff, soff + slen }); what.push_back("strip");
         if (desc->type != 2) { snprintf(m, sizeof m, "description-not-ascii|directory %zu", i); return m; }
         std::string text;
@@ -221,7 +226,7 @@ static std::string execute(const Spec& s)
         std::string tif = s.kind == BasicDevice_Storage_Tiff ? path : path + "/data.tif";
         if (!h_read_file(tif, bytes)) { verdict = "file-missing|" + tif + " does not exist after stop"; break; }
         ++g_parsed;
-        std::string r = check_tiff(bytes, frames, meta, s.kind == BasicDevice_Storage_Tiff);
+        std::string r = check_tiff(View{ bytes.data(), bytes.size() }, frames, meta, s.kind == BasicDevice_Storage_Tiff);
         if (!r.empty()) { verdict = r + " [cycle " + std::to_string(ci) + "]"; break; }
         if (s.kind == BasicDevice_Storage_SideBySideTiffJson && !meta.empty()) {
             std::vector<uint8_t> mj;
@@ -231,6 +236,70 @@ static std::string execute(const Spec& s)
         h_rm(path);
     }
     DEV(storage_close(dev));
+    return verdict;
+}
+
+#include <sys/mman.h>
+// N frames of 32768x32768 u8 (1 GiB each): offsets beyond 4 GiB.  One lazily zeroed buffer is reused for every frame (only
+// its edges carry a pattern), large writes are sparse, and the file is inspected through a read-only mapping.
+static std::string large_file(int kind, int nframes)
+{
+    ENV = Env();
+    g_sparse_writes = true;
+    const uint32_t W = 32768, H = 32768;
+    const size_t img = (size_t)W * H, nb = sizeof(struct VideoFrame) + img;
+    uint8_t* buf = (uint8_t*)mmap(nullptr, nb, PROT_READ | PROT_WRITE, MAP_PRIVATE | MAP_ANONYMOUS | MAP_NORESERVE, -1, 0);
+    if (buf == MAP_FAILED) return "";
+    std::string verdict;
+    struct Storage* dev = dev_open(kind);
+    std::string path = g_scratch + "/large" + (kind == BasicDevice_Storage_Tiff ? ".tif" : ".dir");
+    h_rm(path);
+    struct StorageProperties props; memset(&props, 0, sizeof props);
+    struct PixelScale ps = { 1, 1 };
+    const char meta[] = "{}";
+    storage_properties_init(&props, 0, path.c_str(), path.size() + 1, meta, sizeof meta, ps, 0);
+    enum DeviceStatusCode rc;
+    DEV(rc = storage_set(dev, &props));
+    storage_properties_destroy(&props);
+    DEV(rc = storage_start(dev));
+    std::vector<Expect> frames;
+    for (int i = 0; i < nframes && rc == Device_Ok; ++i) {
+        struct VideoFrame* v = (struct VideoFrame*)buf;
+        memset(v, 0, sizeof *v);
+        v->bytes_of_frame = nb;
+        v->shape.dims.channels = 1; v->shape.dims.width = W; v->shape.dims.height = H; v->shape.dims.planes = 1;
+        v->shape.strides.channels = 1; v->shape.strides.width = 1; v->shape.strides.height = W; v->shape.strides.planes = (int64_t)img;
+        v->shape.type = SampleType_u8; v->frame_id = (uint64_t)i; v->hardware_frame_id = 500 + i; v->timestamps.hardware = 7 + i; v->timestamps.acq_thread = 9 + i;
+        const size_t e = 64 * 1024;
+        for (size_t k = 0; k < e; ++k) { v->data[k] = (uint8_t)(1 + 11 * i + 3 * k); v->data[img - e + k] = (uint8_t)(5 + 13 * i + 7 * k); }
+        Expect ex; ex.spec = { W, H, SampleType_u8, (uint64_t)i }; ex.hw = v->hardware_frame_id; ex.ts_hw = v->timestamps.hardware; ex.ts_rt = v->timestamps.acq_thread;
+        frames.push_back(ex);
+        DEV(rc = storage_append(dev, v, (const struct VideoFrame*)(buf + nb)));
+    }
+    DEV(storage_stop(dev));
+    DEV(storage_close(dev));
+    g_sparse_writes = false;
+    if (rc != Device_Ok) verdict = "append-failed|a 1 GiB frame was refused";
+    else {
+        std::string tif = kind == BasicDevice_Storage_Tiff ? path : path + "/data.tif";
+        int fd = h_open(tif.c_str(), O_RDONLY);
+        struct stat st; memset(&st, 0, sizeof st);
+        if (fd < 0 || fstat(fd, &st)) verdict = "file-missing|large file missing";
+        else {
+            const uint8_t* m = (const uint8_t*)mmap(nullptr, (size_t)st.st_size, PROT_READ, MAP_PRIVATE, fd, 0);
+            for (int i = 0; i < nframes; ++i) {
+                const size_t e = 64 * 1024;
+                frames[i].big_size = img; frames[i].head.resize(e); frames[i].tail.resize(e);
+                for (size_t k = 0; k < e; ++k) { frames[i].head[k] = (uint8_t)(1 + 11 * i + 3 * k); frames[i].tail[k] = (uint8_t)(5 + 13 * i + 7 * k); }
+            }
+            verdict = check_tiff(View{ m, (size_t)st.st_size }, frames, "{}", kind == BasicDevice_Storage_Tiff);
+            if (!verdict.empty()) verdict += " [file of " + std::to_string(st.st_size >> 20) + " MiB, " + std::to_string(nframes) + " frames of 1 GiB]";
+            munmap((void*)m, (size_t)st.st_size);
+        }
+        if (fd >= 0) h_close(fd);
+    }
+    h_rm(path);
+    munmap(buf, nb);
     return verdict;
 }
 
@@ -286,10 +355,21 @@ int main(int argc, char** argv)
                                         ++e.count;
                                     }
                                 }
+    unsigned long long large = 0;
+    if (cycles == 1)
+        for (int kind : { (int)BasicDevice_Storage_Tiff, (int)BasicDevice_Storage_SideBySideTiffJson }) {
+            std::string v = large_file(kind, 5); ++large; ++runs;
+            if (v.empty()) continue;
+            std::string clause = v.substr(0, v.find('|')), detail = v.substr(v.find('|') + 1);
+            std::string key = std::string(kind == BasicDevice_Storage_Tiff ? "tiff:" : "tiff-json:") + clause;
+            auto& e = viols[key];
+            if (!e.count) { e.clause = key; e.detail = detail; e.spec = "large:kind=" + std::to_string(kind) + ",frames=5x1GiB"; }
+            ++e.count;
+        }
     h_rmtree(g_scratch);
     double wall = std::chrono::duration<double>(std::chrono::steady_clock::now() - t0).count();
     FILE* f = out.empty() ? stdout : fopen(out.c_str(), "w");
-    fprintf(f, "{\"cycles\":%d,\"runs\":%llu,\"configurations_refused_by_the_device\":%llu,\"files_parsed\":%llu,\"exhaustive\":true,\"wall_s\":%.3f,\"samples\":[", cycles, runs, g_refused, g_parsed, wall);
+    fprintf(f, "{\"large_files_over_4GiB\":%llu,\"cycles\":%d,\"runs\":%llu,\"configurations_refused_by_the_device\":%llu,\"files_parsed\":%llu,\"exhaustive\":true,\"wall_s\":%.3f,\"samples\":[", large, cycles, runs, g_refused, g_parsed, wall);
     for (size_t i = 0; i < samples.size(); ++i) fprintf(f, "%s\"%s\"", i ? "," : "", json_esc(samples[i]).c_str());
     fprintf(f, "],\"violations\":[");
     bool first = true;
